@@ -35,8 +35,8 @@ GEN = ["Eye"]
 MODELS = ["OptiVerif.Model.Eye", "OptiVerif.Model.NumList", "OptiVerif.Model.FiberNL", "OptiVerif.Gen.Eye"]
 RULE = ("cases = two-level NRZ waveforms (random / PRBS7 patterns of 64..256 slots, both symbols present, sps in {8,16,32}, "
         "sps_resamp=128 (a few without resampling, tie only), levels a<b with b-a log-uniform in [1e-3,100] V and offsets "
-        "{0,-d/2,-3d,+2d}, noise sigma in [0.5%,5%] of b-a, Bessel LPF at 0.7..1.0 R) each run twice: as is and scaled by "
-        "alpha in [1e-3,1e3] (log-uniform) with an offset beta, same numpy seed; degenerate inputs (constant, single level) for "
+        "{0,-d/2,-3d,+2d} plus pedestals |a|/(b-a) in {30,100,1000} of both signs, noise sigma in [0.5%,5%] of b-a, Bessel LPF at 0.7..1.0 R) each run twice: as is and scaled by "
+        "alpha in [1e-3,1e3] (log-uniform) with an offset beta (up to 1000 swings), same numpy seed; degenerate inputs (constant, single level) for "
         "the error branches.  non-trivial = both runs returned finite estimates; distinct by all parameters")
 PARTIAL = ["accuracy clauses (mu within 8 % of b-a, s in [sigma/2, 2 sigma + 3 %], mu0<threshold<mu1 strictly, t_right-t_left within "
            "10 % of 1, t_opt midway within one grid step): oracle under fixed seeds, statistical",
@@ -71,6 +71,21 @@ def gen_cases(rng, tier):
         for sps in (8, 32):
             cases.append({"kind": "eye", "sps": sps, "nsl": 64, "pattern": "prbs", "a": -d / 2, "d": d, "sigma": rng.choice([0.005, 0.05]),
                           "bwf": rng.choice([0.7, 1.0]), "alpha": alpha, "beta": 0.0, "spsr": 128, "seed": rng.getrandbits(31)})
+    # large pedestals relative to the swing (a 1 mV eye on a 1 V offset, 0.1 V on a 30 V rail, levels 10000/10100): the statement
+    # quantifies over level pairs anywhere and over ANY offset beta
+    peds = [(r, sg) for r in (30, 100, 1000) for sg in (1, -1)]
+    for j, (ratio, sign) in enumerate(peds * (1 if tier == "quick" else 6)):
+        d = [1e-3, 0.1, 100.0][j % 3] if tier == "quick" else 10 ** rng.uniform(-3, 2)
+        alpha = 10 ** rng.uniform(-3, 3)
+        cases.append({"kind": "eye", "sps": [8, 16, 32][(j // 2) % 3], "nsl": rng.choice([64, 100, 128]), "pattern": rng.choice(["random", "prbs"]),
+                      "a": sign * ratio * d, "d": d, "sigma": rng.uniform(0.005, 0.05), "bwf": rng.uniform(0.7, 1.0), "alpha": alpha,
+                      "beta": rng.choice([-1, 1]) * rng.choice([30, 100, 1000]) * d * alpha, "spsr": 128, "seed": rng.getrandbits(31)})
+    # ordinary level pairs whose scaled twin gets a large offset
+    for ratio in (30, -100, 1000):
+        d = 10 ** rng.uniform(-3, 2)
+        alpha = 10 ** rng.uniform(-3, 3)
+        cases.append({"kind": "eye", "sps": rng.choice([8, 16, 32]), "nsl": 64, "pattern": "prbs", "a": 0.0, "d": d, "sigma": rng.uniform(0.005, 0.05),
+                      "bwf": rng.uniform(0.7, 1.0), "alpha": alpha, "beta": ratio * d * alpha, "spsr": 128, "seed": rng.getrandbits(31)})
     # no resampling / other resampling factors: correspondence only (outside the statement's quantifier)
     for spsr in (None, None, 64, 256):
         cases.append({"kind": "eye", "sps": rng.choice([8, 16, 32]), "nsl": 96, "pattern": "random", "a": 0.0, "d": 1.0, "sigma": 0.02,
@@ -458,7 +473,7 @@ def features(case, res):
     f = ["status=" + str(res.get("status")), f"sps={case['sps']}", "pattern=" + case["pattern"], f"spsr={case['spsr']}",
          "d<1e-2" if case["d"] < 1e-2 else "d<1" if case["d"] < 1 else "d<10" if case["d"] < 10 else "d>=10",
          "alpha<1e-1" if case["alpha"] < 0.1 else "alpha<10" if case["alpha"] < 10 else "alpha>=10",
-         "offset<0" if case["a"] < 0 else "offset>=0", "sigma<2%" if case["sigma"] < 0.02 else "sigma>=2%",
+         "offset<0" if case["a"] < 0 else "offset>=0", "pedestal>=30x" if max(abs(case["a"]), abs(case["beta"]) / case["alpha"]) >= 29.9 * case["d"] else "pedestal<30x", "sigma<2%" if case["sigma"] < 0.02 else "sigma>=2%",
          "odd-tail" if (case["nsl"] % 2) else "even"]
     for k in ("run1", "run2"):
         r = res.get(k, {})
